@@ -1,0 +1,116 @@
+//go:build verif
+
+package gws
+
+// Read-only accessors for the verification harness in /verif. Compiled only with -tags verif.
+// Nothing here changes the behaviour of the library; every function forwards to unexported code.
+
+import (
+	"bytes"
+
+	"github.com/lxzan/gws/internal"
+)
+
+// VerifMaskXOR forwards to the internal masking routine.
+func VerifMaskXOR(b []byte, key []byte) { internal.MaskXOR(b, key) }
+
+// VerifWindow wraps a slideWindow.
+type VerifWindow struct{ w slideWindow }
+
+// VerifNewWindow builds a window of 2^bits bytes; pooled selects the pool-backed initialisation path.
+func VerifNewWindow(bits int, pooled bool) *VerifWindow {
+	v := new(VerifWindow)
+	if pooled {
+		size := internal.BinaryPow(bits)
+		pool := internal.NewPool[[]byte](func() []byte { return make([]byte, 0, size) })
+		v.w.initialize(pool, bits)
+	} else {
+		v.w.initialize(nil, bits)
+	}
+	return v
+}
+
+// VerifDisabledWindow returns the zero value (a window that was never initialised).
+func VerifDisabledWindow() *VerifWindow { return new(VerifWindow) }
+
+func (v *VerifWindow) Write(p []byte) (int, error) { return v.w.Write(p) }
+
+// Bytes returns a copy of the window's contents.
+func (v *VerifWindow) Bytes() []byte { return append([]byte(nil), v.w.dict...) }
+
+// Cap returns the capacity of the backing slice (to observe reallocation).
+func (v *VerifWindow) Cap() int { return cap(v.w.dict) }
+
+// VerifNewDeque returns a new internal deque instance.
+func VerifNewDeque(capacity int) *internal.Deque[int] { return internal.New[int](capacity) }
+
+// VerifZeroDeque returns the zero value of the deque (as embedded in workerQueue).
+func VerifZeroDeque() *internal.Deque[int] { return new(internal.Deque[int]) }
+
+// VerifPD returns the negotiated permessage-deflate parameters of a connection.
+func VerifPD(c *Conn) PermessageDeflate { return c.pd }
+
+// VerifWindows returns copies of the compression and decompression windows, taken under the write lock.
+func VerifWindows(c *Conn) (cps []byte, dps []byte) {
+	c.mu.Lock()
+	defer c.mu.Unlock()
+	return append([]byte(nil), c.cpsWindow.dict...), append([]byte(nil), c.dpsWindow.dict...)
+}
+
+// VerifIsServer reports the role of a connection.
+func VerifIsServer(c *Conn) bool { return c.isServer }
+
+// VerifIsClosed reports the closed flag.
+func VerifIsClosed(c *Conn) bool { return c.isClosed() }
+
+func VerifGenRequestHeader(pd PermessageDeflate) string  { return pd.genRequestHeader() }
+func VerifGenResponseHeader(pd PermessageDeflate) string { return pd.genResponseHeader() }
+func VerifPermessageNegotiation(s string) PermessageDeflate {
+	return permessageNegotiation(s)
+}
+
+// VerifServerPD runs the server-side parameter selection for an offer.
+func VerifServerPD(u *Upgrader, extensions string) PermessageDeflate {
+	return u.getPermessageDeflate(extensions)
+}
+
+// VerifServerOptionPD returns the normalised server-side compression settings.
+func VerifServerOptionPD(u *Upgrader) PermessageDeflate { return u.option.PermessageDeflate }
+
+// VerifClientPD runs the client-side option normalisation and parameter selection for a response.
+func VerifClientPD(option *ClientOption, extensions string) (normalised PermessageDeflate, negotiated PermessageDeflate) {
+	option = initClientOption(option)
+	c := &connector{option: option}
+	return option.PermessageDeflate, c.getPermessageDeflate(extensions)
+}
+
+func VerifCheckEncodingBytes(enabled bool, opcode uint8, p []byte) bool {
+	return internal.Bytes(p).CheckEncoding(enabled, opcode)
+}
+
+func VerifCheckEncodingBuffers(enabled bool, opcode uint8, p [][]byte) bool {
+	return internal.Buffers(p).CheckEncoding(enabled, opcode)
+}
+
+// VerifGenerateHeader returns the header bytes produced for the given parameters.
+func VerifGenerateHeader(isServer bool, fin bool, compress bool, opcode Opcode, length int) []byte {
+	var h frameHeader
+	n, _ := h.GenerateHeader(isServer, fin, compress, opcode, length)
+	return append([]byte(nil), h[:n]...)
+}
+
+// VerifParseHeader parses a header from data, returning the payload length, the 14 header bytes and the unread rest.
+func VerifParseHeader(data []byte) (length int, hdr [frameHeaderSize]byte, rest int, err error) {
+	var h frameHeader
+	r := bytes.NewReader(data)
+	length, err = h.Parse(r)
+	return length, h, r.Len(), err
+}
+
+// VerifPoolCap returns the capacity of the buffer handed out for a request of n bytes.
+func VerifPoolCap(n int) int {
+	b := binaryPool.Get(n)
+	c := b.Cap()
+	binaryPool.Put(b)
+	return c
+}
